@@ -526,6 +526,70 @@ def rule_r10(ctx):
             r.ob(f, "lower-casing loop at line %s ends only at the NUL" % t.line)
 
 
+# ---------------------------------------------------------------------------
+# R12: an unsigned cursor is stepped back only where it is known to be above zero
+
+
+def rule_r12(ctx):
+    r = ctx.rule("C19.R12", "T1", "the write cursor of the canonicaliser never steps below the start of the string: in core/url.c every `--` of "
+                 "an unsigned local that indexes the buffer is reached, after the last change of that local, only through an edge "
+                 "on which the local is known to be non-zero -- a path whose first segment is `..` otherwise wraps the cursor and "
+                 "the scan for the previous '/' reads and writes in front of the buffer", floor=1)
+    prog = ctx.prog
+    n = 0
+    for f in prog.fns_in("core/url.c"):
+        if f.cfg_failed:
+            continue
+        for t in f.sites():
+            nd = t.node
+            if nd.get("k") != "un" or nd.get("op") != "--" or nd["e"].get("k") != "var":
+                continue
+            v = nd["e"]["n"]
+            ty = (f.locals().get(v) or {}).get("t") or ""
+            if not any(x in ty for x in ("size_t", "unsigned", "uint")):
+                continue
+            if not any(m.get("k") == "idx" and f.expand(m["i"]).get("k") == "var" and f.expand(m["i"])["n"] == v for s_ in f.sites() for m in walk(s_.node)):
+                continue
+            n += 1
+            nz = dict(G.nz_edges(f, lambda x, v=v: x.get("k") == "var" and x["n"] == v))
+            for bid, k, atom, val in G.edge_facts(f):
+                if atom.get("k") == "var" and atom["n"] == v and val:
+                    nz[bid] = k
+                if atom.get("k") != "bin" or atom.get("op") not in (">", ">=", "<", "<=", "!=", "=="):
+                    continue
+                l, rr, op = atom["lhs"], atom["rhs"], atom["op"]
+                if rr.get("k") == "var" and rr["n"] == v and const_of(l) is not None:
+                    l, rr, op = rr, l, {">": "<", "<": ">", ">=": "<=", "<=": ">="}.get(op, op)
+                if l.get("k") != "var" or l["n"] != v or const_of(rr) is None:
+                    continue
+                cv = const_of(rr)
+                pos = (op == ">" and cv >= 0) or (op == ">=" and cv >= 1) or (op == "!=" and cv == 0)
+                neg = (op == "<" and cv <= 1) or (op == "<=" and cv <= 0) or (op == "==" and cv == 0)
+                if (pos and val) or (neg and not val):
+                    nz[bid] = k
+            writes = [(f.entry, 0)]
+            for w in f.sites():
+                wn = w.node
+                if (wn.get("k") == "asg" and wn["lhs"].get("k") == "var" and wn["lhs"]["n"] == v) or \
+                        (wn.get("k") == "un" and wn.get("op") in ("++", "--") and wn["e"].get("k") == "var" and wn["e"]["n"] == v):
+                    writes.append((w.b, w.i + 1))
+                if wn.get("k") == "decls" and any(d["n"] == v for d in wn["d"]):
+                    writes.append((w.b, w.i + 1))
+            bad = None
+            for w in writes:
+                if (t.b, t.i) in f.reach(w, edge_ok=lambda b, k: not (b in nz and nz[b] == k)):
+                    bad = w
+            if bad:
+                ctx.fail(r, f, "%s-- without knowing %s > 0" % (v, v), t.line,
+                         "%s decrements the unsigned cursor %s at line %s on a path (from line %s) that has not tested it against "
+                         "zero since its last change: at 0 it wraps, and the accesses indexed by it leave the buffer"
+                         % (f.name, v, t.line, f.line_of(*bad) if bad != (f.entry, 0) else f.line))
+            else:
+                r.ob(f, "%s-- at line %s only where %s is known to be non-zero" % (v, t.line, v))
+    if n < 1:
+        raise AnalysisBroken("no unsigned cursor is stepped back in core/url.c any more")
+
+
 def run(ctx):
     ctx.guard(rule_r1)
     ctx.guard(rule_r2)
@@ -537,3 +601,4 @@ def run(ctx):
     ctx.guard(rule_r9)
     ctx.guard(rule_r10)
     ctx.guard(rule_r11)
+    ctx.guard(rule_r12)
